@@ -86,14 +86,14 @@ func init() {
 	}}
 	properties["C12"] = propDef{run: func(c *Ctx) *PropertyRun {
 		return pr("other", "Decided: for all 21 FromJSON — loaders decode into a fresh temporary, never live memory (R8a: atomic on error, replace not merge); every write to the receiver is guarded by err == nil (R8b); the receiver's Clear dominates every insertion (R8c: no prior element survives); elements enter only through the container's own exported insertion methods (R8d: sets deduplicate, trees sort, BidiMaps stay one-to-one, the ring keeps the last capacity-many, the heap re-heapifies — by the guarantees of those methods); forwarding loaders are sound because every insertion method of the type is a pure forwarder to the same field (R8e); (R6) a Go-map field that is assigned to can never become nil (the input null cannot make a later Put panic). Not decided: arbitrary follow-up operation sequences beyond 'inserted through the own insertion method' (then C01/C04 apply)."+notBehaviour,
-			c.rule("R8", ruleR8), c.rule("R6", ruleR6))
+			c.rule("R8", ruleR8), c.rule("R6", ruleR6), controlFor(c, "R6", "R8"))
 	}}
 	properties["C13"] = propDef{run: func(c *Ctx) *PropertyRun {
 		return pr("other", "Decided: (R18) for the three sets, Intersection has one loop per operand that adds the current element iff the other operand contains it (both arms, selected by comparing sizes), Union adds every element of both operands in two consecutive loops, Difference adds an element of the receiver iff the argument does not contain it; membership is tested on the right operand with the current element; the result is built by the set's constructor (TreeSet: with the operands' comparator, loops reachable only after the comparators were found identical); (R1) neither operand is written on any path — in particular when both are the same object; (R2d) the result embeds no pointer, slice or map of an operand. Not decided: membership exactness beyond the arm structure (rests on Contains/Add, C04)."+notBehaviour,
 			c.rule("R18", ruleR18), c.rule("R2d", ruleR2d),
 			filter(c.rule("R1", ruleR1), "R1", "PURE: set algebra writes no operand", 9, func(o Obligation) bool {
 				return strings.HasSuffix(o.Key, ").Intersection") || strings.HasSuffix(o.Key, ").Union") || strings.HasSuffix(o.Key, ").Difference")
-			}))
+			}), controlFor(c, "R1", "R2d"))
 	}}
 	properties["C14"] = propDef{run: func(c *Ctx) *PropertyRun {
 		return pr("other", "Decided: (R17) all 48 enumerable functions are the canonical loop over the receiver's own iterator: one Next() per round, f receives exactly (Index()|Key(), Value()) of the current position, Each continues unconditionally, Any/All decide at the first hit/miss, Find returns the current pair at the first hit and (-1|zero, zero) otherwise, Select inserts the current pair iff f accepted it, Map inserts f's result, and the derived container is built with the receiver's comparator(s) in role order; (R1) the receiver is never written; (R2d) the result shares no state with it. Not decided: the containers' own insertion semantics (C01/C03/C04)."+notBehaviour,
@@ -124,15 +124,15 @@ func init() {
 			c.rule("R2a", ruleR2a), c.rule("R2b", ruleR2b), c.rule("R2c", ruleR2c),
 			filter(c.rule("R1", ruleR1), "R1", "PURE: GetSortedValues[Func] write nothing", 2, func(o Obligation) bool {
 				return o.Key == "R1:containers.GetSortedValues" || o.Key == "R1:containers.GetSortedValuesFunc"
-			}))
+			}), controlFor(c, "R2a", "R2b", "R2c"))
 	}}
 	properties["C17"] = propDef{run: func(c *Ctx) *PropertyRun {
 		return pr("other", "Decided: (R3) no library function can reach fmt.Print*/print/println/log/os.Stdout/os.Stderr — complete for the silence clause; (R4) explicit panics/exits exist only in the two documented constructors, guarded by the documented bound — complete for explicit panics; (R5a) every index parameter of the three lists is range-checked before use; (R6) a Go-map field that is assigned to can never be nil; (R7) an empty variadic list leaves no nil pointer to dereference; (R8a) the JSON decoder never writes live container state (it cannot corrupt it into a panicking one). Not decided: implicit panics that depend on heap-shape invariants (nil sibling in deleteCase*, Children[index] in the B-tree — a generic may-be-nil analysis drowns in false alarms there and a sound one needs the tree invariants); termination of the loops."+notBehaviour,
 			c.rule("R3", ruleR3), c.rule("R4", ruleR4), c.rule("R5", ruleR5), c.rule("R6", ruleR6), c.rule("R7", ruleR7),
-			prefixFilter(c.rule("R8", ruleR8), "R8", "LOADER: the decoder never targets live state (R8a)", 14, "R8a:"))
+			prefixFilter(c.rule("R8", ruleR8), "R8", "LOADER: the decoder never targets live state (R8a)", 14, "R8a:"), controlFor(c, "R3", "R4", "R6", "R7", "R8"))
 	}}
 	properties["C18"] = propDef{run: func(c *Ctx) *PropertyRun {
 		return pr("proof", "Decides the property completely modulo the trusted base: a conservative interprocedural effect/alias analysis (E1) over go/ssa shows that every read-only operation of every container, node and iterator type performs no store into container/node memory, into an iterator it did not create, or into a global, on any path and for all inputs; by the Go memory model (a data race needs a write) concurrent readers cannot race, and each call's result is a function of memory nobody writes. R1b: every call through a func value passes only opaque elements; R1c: iterators are never stored in shared memory; A5 scan: no unsafe/cgo/linkname.",
-			c.rule("R1", ruleR1), c.rule("R1b", ruleR1b), c.rule("R1c", ruleR1c))
+			c.rule("R1", ruleR1), c.rule("R1b", ruleR1b), c.rule("R1c", ruleR1c), controlFor(c, "R1", "R1b", "R1c"))
 	}}
 }
